@@ -1427,8 +1427,10 @@ class Authenticated(BaseClientHandler):
             # EXPUNGE may have run: its EXPUNGEs are now pending for us and
             # our sequence numbers are stale.
             #
-            if not cmd.uid_command and self.pending_expunges():
-                raise No("There are pending untagged responses")
+            if self.pending_expunges():
+                if not cmd.uid_command:
+                    raise No("There are pending untagged responses")
+                await self.send_pending_notifications()
             try:
                 results = await self.mbox.search(
                     cmd.search_key, cmd.uid_command, cmd.timeout_cm
@@ -1494,10 +1496,13 @@ class Authenticated(BaseClientHandler):
             async with cmd.ready_and_okay(self.mbox):
                 # While this command waited for its turn another client's
                 # EXPUNGE may have run: its EXPUNGEs are now pending for us
-                # and our sequence numbers are stale.
+                # and our sequence numbers are stale. (A UID command may
+                # be sent them, and must be before we number its results.)
                 #
-                if not cmd.uid_command and self.pending_expunges():
-                    raise No("There are pending EXPUNGEs.")
+                if self.pending_expunges():
+                    if not cmd.uid_command:
+                        raise No("There are pending EXPUNGEs.")
+                    await self.send_pending_notifications()
                 msg_set = (
                     sorted(cmd.msg_set_as_set) if cmd.msg_set_as_set else []
                 )
@@ -1595,10 +1600,13 @@ class Authenticated(BaseClientHandler):
             async with cmd.ready_and_okay(self.mbox):
                 # While this command waited for its turn another client's
                 # EXPUNGE may have run: its EXPUNGEs are now pending for us
-                # and our sequence numbers are stale.
+                # and our sequence numbers are stale. (A UID command may
+                # be sent them, and must be before we number its results.)
                 #
-                if not cmd.uid_command and self.pending_expunges():
-                    raise No("There are pending EXPUNGEs.")
+                if self.pending_expunges():
+                    if not cmd.uid_command:
+                        raise No("There are pending EXPUNGEs.")
+                    await self.send_pending_notifications()
                 msg_set = (
                     sorted(cmd.msg_set_as_set) if cmd.msg_set_as_set else []
                 )
@@ -1671,8 +1679,10 @@ class Authenticated(BaseClientHandler):
             # EXPUNGE may have run: its EXPUNGEs are now pending for us and
             # our sequence numbers are stale.
             #
-            if not cmd.uid_command and self.pending_expunges():
-                raise No("There are pending EXPUNGEs.")
+            if self.pending_expunges():
+                if not cmd.uid_command:
+                    raise No("There are pending EXPUNGEs.")
+                await self.send_pending_notifications()
             try:
                 dest_mbox = await self.server.get_mailbox(cmd.mailbox_name)
                 src_uids, dst_uids = await self.mbox.copy(
@@ -1756,8 +1766,10 @@ class Authenticated(BaseClientHandler):
             # EXPUNGE may have run: its EXPUNGEs are now pending for us and
             # our sequence numbers are stale.
             #
-            if not cmd.uid_command and self.pending_expunges():
-                raise No("There are pending EXPUNGEs.")
+            if self.pending_expunges():
+                if not cmd.uid_command:
+                    raise No("There are pending EXPUNGEs.")
+                await self.send_pending_notifications()
             try:
                 dest_mbox = await self.server.get_mailbox(cmd.mailbox_name)
                 src_uids, dst_uids = await self.mbox.copy(
